@@ -14,6 +14,7 @@
 #include <bxdecay0/genbbsub.h>
 
 #include "diffcore.h"
+#include "steer.h"
 
 using namespace verif;
 
@@ -24,6 +25,7 @@ struct Config
   double e1 = 0, e2 = 4.3;
   bool window = false;
   double nme[7] = {1, 1, 1, 1, 1, 1, 1};
+  std::vector<double> thr; // branching thresholds of the daughter's de-excitation scheme (steering hints)
   std::string label() const
   {
     return "dbd/" + name + "/L" + std::to_string(level) + "/m" + std::to_string(mode) + (window ? fmt("/w%.6g-%.6g", e1, e2) : "");
@@ -33,6 +35,7 @@ struct Config
 static void run_config(const Config & c, uint64_t seed, long n_iid, int n_grid)
 {
   Stats st;
+  DeepSteerStats ds;
   std::string lab = c.label();
   st.name = lab;
   Tape tape;
@@ -133,7 +136,12 @@ static void run_config(const Config & c, uint64_t seed, long n_iid, int n_grid)
     bool chain = (c.name == "Bi214" || c.name == "Pb214" || c.name == "Po218" || c.name == "Rn222");
     if (chain) emax = 12.0;
     uint64_t stream = (hash_str(lab) & 0xffffff) << 24;
+    uint64_t last_sig = 0;
+    size_t last_draws = 0;
+    int probes = 0;
     auto one = [&](const std::string & steer) {
+      last_sig = 0;
+      last_draws = 0;
       RefEvent re;
       bxdecay0::event pe, pe2;
       tape.rewind();
@@ -156,6 +164,7 @@ static void run_config(const Config & c, uint64_t seed, long n_iid, int n_grid)
         exc = x.what();
       }
       size_t pd = tape.pos;
+      last_draws = pd;
       st.events++;
       if (pd > st.max_draws) st.max_draws = pd;
       st.draws_hist.push_back(pd);
@@ -193,10 +202,52 @@ static void run_config(const Config & c, uint64_t seed, long n_iid, int n_grid)
               && ekin(q1) < 50.e-6 && std::fabs(re.ekin(1) - 50.e-6) < 1e-12)
             clamp = true;
         }
+        if (!clamp && ref_state().port_fermi) {
+          // root-cause probe: the same in-place clamp also acts inside the rejection loops (fe1_modN / fe2_modN see 50 eV instead of
+          // the sampled sub-50-eV energy after their first fermi() call), so a deviate steered exactly onto an accept/reject boundary
+          // can flip the decision.  Replay the reference on the same tape with the side effect switched off in the shim: if it then
+          // agrees with the port, this is that recorded root cause and nothing else.
+          // (the spectrum tables of the rejection loops are built at initialisation, so the reference is re-initialised too)
+          auto reinit = [&]() {
+            double a1 = c.e1, a2 = c.e2;
+            int ierx = 0;
+            vf_setenrange_(&a1, &a2);
+            Tape t0;
+            t0.reseed(seed, hash_str(lab) & 0xffffff);
+            ref_state().tape = &t0;
+            ref_genbbsub(1, c.name, c.level, c.mode, -1, ierx);
+            ref_state().tape = &tape;
+          };
+          bool rok2 = false;
+          int ier2 = 0;
+          size_t rd2 = 0;
+          RefEvent re2;
+          if (probes++ < 50) {
+            ref_state().inplace_clamp = false;
+            reinit();
+            tape.rewind();
+            vf_clearevent_();
+            rok2 = ref_genbbsub(1, c.name, c.level, c.mode, 1, ier2);
+            rd2 = tape.pos;
+            re2.fetch();
+            ref_state().inplace_clamp = true;
+            reinit(); // back to the faithful reference state
+          }
+          if (rok2 && ier2 == 0) {
+            CmpResult cr2 = compare_events(re2, pe, rd2, pd, false);
+            bool sub50 = false; // and a lepton below 50 eV really occurs on one of the two sides' paths
+            for (int i = 0; i < re.np && i < 2; i++)
+              if ((re.code[i] == 2 || re.code[i] == 3) && re.ekin(i) <= 50.e-6 * (1 + 1e-9)) sub50 = true;
+            for (size_t i = 0; i < pe.get_particles().size() && i < 2; i++)
+              if (ekin(pe.get_particles()[i]) <= 50.e-6) sub50 = true;
+            if (cr2.same && sub50) clamp = true;
+          }
+        }
         if (clamp) rec(st.mm, "dbd|lepton-below-50eV-clamped-in-reference", lab + ": " + cr.detail);
         else rec(st.mm, lab + "|" + cr.kind + "|" + re.signature(cr.index < 0 ? 0 : cr.index), cr.detail);
       }
-      st.sigs.insert(hash_str(re.signature(1000)));
+      last_sig = hash_str(re.signature(1000));
+      st.sigs.insert(last_sig);
       std::string wfk, wfd;
       if (!wellformed(pe, c.name, emax, wfk, wfd)) rec(st.wf, lab + "|" + wfk, wfd);
       if (gen_ok) {
@@ -223,11 +274,21 @@ static void run_config(const Config & c, uint64_t seed, long n_iid, int n_grid)
         one(fmt("cell %zu=%.17g", k, g));
       }
     }
+    // deep steering through the daughter's de-excitation cascade (thresholds given on the spec line)
+    long deep_events = getenv("VERIF_DEEP_EVENTS") ? atol(getenv("VERIF_DEEP_EVENTS")) : 0;
+    if (deep_events > 0 && !c.thr.empty()) {
+      ds = deep_steer(tape, seed, stream + (1ULL << 22), c.thr, deep_events, 4, [&](const std::string & steer, size_t & d) {
+        one(steer);
+        d = last_draws;
+        return last_sig;
+      });
+    }
     if (gen_ok && std::fabs(gen.get_to_all_events() - pars.toallevents) > 1e-6 * pars.toallevents)
       record(st.mm, lab + "|porcelain-toallevents", fmt("get_to_all_events %.12g vs genbbsub %.12g", gen.get_to_all_events(), pars.toallevents));
   }
   std::sort(st.draws_hist.begin(), st.draws_hist.end());
   size_t p999 = st.draws_hist.empty() ? 0 : st.draws_hist[(size_t)(0.999 * (st.draws_hist.size() - 1))];
+  fprintf(OUT, "\"deep\":[%ld,%ld,%ld,%ld,%ld],", ds.events, ds.nodes_expanded, ds.nodes_found, ds.max_depth, ds.frontier_left);
   fprintf(OUT, "\"accepted\":%s,\"toallevents\":%s,\"Qbb\":%s,\"events\":%ld,\"distinct_signatures\":%zu,\"max_draws\":%zu,\"p999_draws\":%zu,\"cap_hits\":%ld,\"sample\":%s,",
           (accepted_ref && accepted_port) ? "true" : "false", jnum(pars.toallevents).c_str(), jnum(pars.Qbb).c_str(), st.events, st.sigs.size(), st.max_draws, p999, st.cap_hits,
           st.sample.empty() ? "null" : st.sample.c_str());
@@ -265,6 +326,13 @@ int main(int argc, char ** argv)
     c.window = w != 0;
     for (int i = 0; i < 7; i++)
       if (!(ls >> c.nme[i])) break;
+    ls.clear();
+    std::string tk;
+    if (ls >> tk && tk == "T") {
+      double v;
+      while (ls >> v)
+        if (v > 0 && v < 1) c.thr.push_back(v);
+    }
     run_config(c, seed, n_iid, n_grid);
   }
   return 0;
